@@ -225,6 +225,25 @@ def impl_model_stage(prefixes, expect_fail=(), orig_mutants=()):
                     "the harness must exhibit it on the code before it counts)" % (m["name"], inv))
             elif not failed and m["name"] in expect_fail:
                 log("  [model] %s: expected counterexample (known finding) not found" % m["name"])
+        # temporal cross-check (C08): with every thread scheduled fairly the scenario terminates; only on
+        # configurations whose programs are guaranteed something to receive (blockdisc_*)
+        cov.setdefault("liveness_configs", [])
+        for m in sel:
+            if not m["name"].startswith("blockdisc"):
+                continue
+            mod, cfg = md.write_model(m, wd, False)
+            c = open(cfg).read().replace("SPECIFICATION Spec", "SPECIFICATION FairSpec")
+            c = "\n".join(l for l in c.splitlines() if not l.startswith("INVARIANT")) + "\nPROPERTY Termination\n"
+            lcfg = cfg.replace(".cfg", "_live.cfg")
+            open(lcfg, "w").write(c)
+            r = vlib.tlc(mod, lcfg, os.path.join(wd, "tlc_live_" + m["name"]), workers=2, timeout=600, cwd=wd)
+            okl = r["error"] is None
+            cov["liveness_configs"].append({"name": m["name"], "wait": m["wait"], "states": r["distinct"],
+                                            "terminates_under_fairness": okl})
+            cov["states"] += r["distinct"]
+            if not okl:
+                cov["model_invariant_failures"].append({"model": m["name"], "invariant": "Termination"})
+                log("  [model] %s: Termination violated under fairness (design-level finding)" % m["name"])
         # seeded specification mutants: the original remove_reader must be refuted by TLC
         cov.setdefault("spec_mutants_refuted", 0)
         for name in orig_mutants:
